@@ -226,12 +226,20 @@ Record cfg := mkCfg {
   cf_dask_custom_positional : bool;
   (* convert_custom_data hands over the bare number only for the placeholder "_" itself (false: for every
      parameter with exactly one placeholder, also the one-element list ["_"]) *)
-  cf_dask_custom_scalar_is_placeholder : bool
+  cf_dask_custom_scalar_is_placeholder : bool;
+  (* ProductMode.create_params de-duplicates every value list (first occurrences) before building the MultiIndex
+     (false: a repeated value makes pandas refuse the non-unique MultiIndex) *)
+  cf_dask_product_dedup : bool;
+  (* SequentialMode.create_params builds its rows from get_parameters_item(processor): one parameter at a time,
+     the others at their configured values (false: the value lists are zipped, DESIGN F12) *)
+  cf_dask_sequential_rows : bool
 }.
 
 (* the tree the framework was built on (round 1) and the tree with the round-2 repairs *)
-Definition cfg_round1 : cfg := mkCfg false false false false false false.
-Definition cfg_repaired : cfg := mkCfg true true true true true true.
+Definition cfg_round1 : cfg := mkCfg false false false false false false false false.
+(* the round-2 repairs of C05; the two dask defects repaired under C07 are separate flags *)
+Definition cfg_repaired : cfg := mkCfg true true true true true true false false.
+Definition cfg_all_repaired : cfg := mkCfg true true true true true true true true.
 
 (* ------------------------------------------------------------------------------------ dimension names *)
 
@@ -501,6 +509,14 @@ Fixpoint insert_sorted (x : pval) (l : list pval) : list pval :=
 (* MultiIndex.levels: pandas keeps every level sorted *)
 Definition sort_level (l : list pval) : list pval := fold_right insert_sorted [] l.
 
+(* list(dict.fromkeys(l)): first occurrences, in order *)
+Fixpoint dedup_pvals_aux (seen l : list pval) : list pval :=
+  match l with
+  | [] => []
+  | a :: t => if existsb (pval_eqb a) seen then dedup_pvals_aux seen t else a :: dedup_pvals_aux (a :: seen) t
+  end.
+Definition dedup_pvals (l : list pval) : list pval := dedup_pvals_aux [] l.
+
 (* all_steps = {step.key: list(step) for step in enabled_steps} *)
 Definition dask_steps (en : list param) : list (string * list pval) :=
   dict_of (map (fun p => (p_key p, piter p)) en).
@@ -552,6 +568,15 @@ Definition dask_outcome (slots : assignment) (cells : list (label * assignment))
   option_map (mkOutcome (map (fun c => received slots (snd c)) cells))
              (assemble (map (fun c => (fst c, data_of slots (snd c))) cells)).
 
+(* the value lists ProductMode.create_params hands to pandas *)
+Definition dask_product_steps (cf : cfg) (steps : list (string * list pval)) : list (string * list pval) :=
+  if cf_dask_product_dedup cf then map (fun s => (fst s, dedup_pvals (snd s))) steps else steps.
+
+(* the rows of SequentialMode.create_params *)
+Definition dask_seq_cells (cf : cfg) (get : string -> pval) (ps : list param) : list assignment :=
+  if cf_dask_sequential_rows cf then map r_params (sequential_runs get ps)
+  else dask_sequential_cells (dask_steps (enabled ps)).
+
 (* the observation as coded, dask path.  None = an exception is raised.  oc_runs lists the cells (the
    order of execution is dask's business and is not compared). *)
 Definition observe_dask (cf : cfg) (m : omode) (ps : list param) (slots : assignment) (table : list (list Z))
@@ -565,10 +590,11 @@ Definition observe_dask (cf : cfg) (m : omode) (ps : list param) (slots : assign
       match dim_names cf keys with
       | None => None
       | Some names =>
+          let steps' := dask_product_steps cf steps in
           if str_nodup (map (name_of names) keys ++ reserved_dims)
-             && forallb (fun s => pvals_nodup (snd s)) steps      (* non-unique MultiIndex: ValueError *)
+             && forallb (fun s => pvals_nodup (snd s)) steps'     (* non-unique MultiIndex: ValueError *)
           then dask_outcome slots (map (fun c => (dask_product_label names c, c))
-                                       (dask_product_cells sort_level steps))
+                                       (dask_product_cells sort_level steps'))
           else None
       end
   | Sequential =>
@@ -578,7 +604,7 @@ Definition observe_dask (cf : cfg) (m : omode) (ps : list param) (slots : assign
       | Some names =>
           if str_nodup (map (name_of names) keys)                 (* non-unique DataFrame columns *)
           then dask_outcome slots (map (fun nc => (dask_id_label names (fst nc) (snd nc), snd nc))
-                                       (enumerate_from 0 (dask_sequential_cells steps)))
+                                       (enumerate_from 0 (dask_seq_cells cf (default_of slots) ps)))
           else None
       end
   | Custom =>
@@ -688,14 +714,14 @@ Fixpoint list_eqb {A} (eqb : A -> A -> bool) (a b : list A) : bool :=
 
 Definition runs_eqb := list_eqb (list_eqb pval_eqb).
 
-(* dask path: every requested run is executed (as a multiset); the only other execution allowed is
-   ONE more run of an element of the space (run_pipelines_with_dask runs the first cell once more to
-   learn the shape of the output) *)
+(* dask path: every requested run is executed and nothing else is; the number of executions is at most the
+   size of the requested space plus ONE (run_pipelines_with_dask runs the first cell once more to learn the
+   shape of the output).  For a space without repeated elements this says: each requested run once, plus at
+   most one repetition; a repeated element of the space (a value twice in a list) may be executed once. *)
 Definition runs_dask_ok (obs expected : list (list pval)) : bool :=
-  match remove_all (list_eqb pval_eqb) expected obs with
-  | None => false
-  | Some rest => Nat.leb (length rest) 1 && forallb (fun r => existsb (list_eqb pval_eqb r) expected) rest
-  end.
+  forallb (fun r => existsb (list_eqb pval_eqb r) obs) expected &&
+  forallb (fun r => existsb (list_eqb pval_eqb r) expected) obs &&
+  Nat.leb (length obs) (length expected + 1).
 
 Definition case_rows (c : case) : list (list Z) :=
   match c_range c with
